@@ -141,6 +141,7 @@ class Ctx:
         self.dist: dict[str, int] = {}
         self.infra_errors: list[str] = []
         self.kf = load_known_findings(prop)
+        self.kf_all = load_known_findings(None)  # a failure may be attributed to another property's finding
 
     # ---- budgets
     def scale(self, quick: int, thorough: int) -> int:
@@ -195,8 +196,9 @@ class Ctx:
     def fail(self, clause: str, case: Any, detail: Any = None, known: str | None = None) -> None:
         """A concrete input on which the property fails on the real code.
         `known` = id of the KNOWN_FINDINGS entry it is attributed to (counterfactually), if any."""
-        if known is not None and known in self.kf and self.kf[known].get("status") == "known":
-            self.known_hits.setdefault(known, self.kf[known].get("line") or self.kf[known].get("what", clause))
+        if known is not None and known in self.kf_all and self.kf_all[known].get("status") == "known":
+            e = self.kf_all[known]
+            self.known_hits.setdefault(known, e.get("line") or e.get("what", clause))
             return
         if len(self.failing) < 20:
             self.failing.append({"clause": clause, "case": case, "detail": _short(detail, 2000)})
@@ -270,11 +272,11 @@ class Ctx:
         (EVIDENCE_DIR / f"{self.prop}.json").write_text(json.dumps(ev, ensure_ascii=False, indent=1, default=str))
 
 
-def load_known_findings(prop: str) -> dict[str, dict[str, Any]]:
+def load_known_findings(prop: str | None) -> dict[str, dict[str, Any]]:
     if not KNOWN_FINDINGS.exists():
         return {}
     data = json.loads(KNOWN_FINDINGS.read_text())
-    return {e["id"]: e for e in data.get("findings", []) if e.get("property") == prop}
+    return {e["id"]: e for e in data.get("findings", []) if prop is None or e.get("property") == prop}
 
 
 def finish(ctx: Ctx, search: Callable[[Ctx], None] | None = None) -> int:
